@@ -128,8 +128,20 @@ def eval (st : St) (fn : String) (args : List String) (impl : String) : Option (
                  propFails := checkGtpu s!"Update FAR {far} of session {natHex up}" impl out ++ kFail })
   | "buf.rmpdr", [up, pdr] =>
     let up ← parseHexNat up
+    let had : Bool := match alGet st.sess up with
+      | some ss => ss.pdrIds.contains (pdr.toNat?.getD 0)
+      | none => false
     let (st', ok) := removePdr st up (← pdr.toNat?)
-    pure (st', { model := s!"{causeShow ok} q={qShow st' up}" })
+    -- C13: what was buffered for a removed PDR is gone with it (a PDR created later under the same id must not release it)
+    let qf := ((impl.split (· == ' ')).toList.map (·.toString)).find? (·.startsWith "q=")
+    let left : Bool := match qf with
+      | some f => ((f.drop 2).toString.splitOn ",").any fun e => match e.splitOn "/" with
+          | [i, n] => i == pdr && n != "0"
+          | _ => false
+      | none => false
+    pure (st', { model := s!"{causeShow ok} q={qShow st' up}",
+                 propFails := if impl.startsWith "1 " && left && had then
+                   [s!"C13 Remove PDR {pdr} of session {natHex up} was accepted, yet packets buffered for that PDR are still held ({qf.getD ""}): a PDR created later under the same id would release them"] else [] })
   | "buf.addpdr", [up, pdr, far, qs] =>
     let up ← parseHexNat up
     let (st', ok) := addPdr st up (← pdr.toNat?) (← far.toNat?) (← parseIds qs)
